@@ -26,10 +26,27 @@ TLayout ==
               ELSE IF Ev.fmt = "fasta" THEN (IF FastaOk(Ev, obj.names, obj.rows, BW) THEN {} ELSE {"C15:fasta-layout"})
               ELSE IF Ev.fmt = "clu" THEN (IF CluOk(Ev, obj.names, obj.rows, BW) THEN {} ELSE {"C15:clustal-layout"})
               ELSE MsfFailures(Ev, obj.names, obj.rows, obj.biotype, BW))
+(* the file, line by line, against the constructive writers of Writer.tla (diagnostic: a legitimate change of padding or header
+   wording would differ here without breaking the layout requirement).  Line 3 of an MSF file (file name, date) is compared
+   only from "MSF:" to "Type: X" and from "Check:" on. *)
+DropTrailingBlank(ls) == IF Len(ls) > 0 /\ ls[Len(ls)] = <<>> THEN SubSeq(ls, 1, Len(ls) - 1) ELSE ls
+SameLines(got, want, msf) ==
+    /\ Len(got) = Len(want)
+    /\ \A i \in 1..Len(got) : (msf /\ i = 3) \/ got[i] = want[i]
+TLines ==
+    /\ Is("Lines")
+    /\ l' = l + 1
+    /\ UNCHANGED <<sid, obj>>
+    /\ viol' = {}
+    /\ IF obj.k # "ok" THEN TRUE
+       ELSE LET want == IF Ev.fmt = "fasta" THEN FastaLines(obj.names, obj.rows, BW)
+                        ELSE IF Ev.fmt = "clu" THEN CluLines(obj.names, obj.rows, BW)
+                        ELSE MsfLines(obj.names, obj.rows, obj.biotype, BW)
+            IN IF SameLines(Ev.lines, want, Ev.fmt = "msf") THEN TRUE ELSE PrintT(<<"KVDIV", l, sid, {"Writer.lines-differ-from-model:" \o Ev.fmt}>>)
 TOther ==
-    /\ l <= Len(Trace) /\ ~(Ev.e = "Note" \/ Ev.e = "Layout" \/ (Ev.e = "Obj" /\ Ev.tag = "out"))
+    /\ l <= Len(Trace) /\ ~(Ev.e = "Note" \/ Ev.e = "Layout" \/ Ev.e = "Lines" \/ (Ev.e = "Obj" /\ Ev.tag = "out"))
     /\ l' = l + 1 /\ UNCHANGED <<sid, obj>> /\ Report({})
-Next == TNote \/ TObj \/ TLayout \/ TOther
+Next == TNote \/ TObj \/ TLayout \/ TLines \/ TOther
 Spec == Init /\ [][Next]_vars
 NoViolation == viol = {}
 Accepted == TLCGet("stats").diameter - 1 = Len(Trace)
